@@ -338,7 +338,11 @@ class Net:
         ct = SimTransport(self.env, client_protocol, c2s, s2c, ("127.0.0.1", port), (addr, cport), tap=tap_c2s)
         sctx = getattr(server, "_sim_ctx", None)
         if sctx is not None:
-            sctx.copy().run(sproto.connection_made, st)
+            from sim.seams import CONN
+
+            cx = sctx.copy()
+            cx.run(CONN.set, n)
+            cx.run(sproto.connection_made, st)
         else:
             sproto.connection_made(st)
         client_protocol.connection_made(ct)
